@@ -541,7 +541,7 @@ def sub_history(hist, vinc, inc):
     return sub
 
 
-PREFIX_RE = re.compile(r"^[^\n:]*(?=:\d+: )", re.M)
+PREFIX_RE = re.compile(r"^[^\n:]*(?=:(?:\d+|#): )", re.M)
 
 
 def obs_diff_key(o1, o2, default):
@@ -1090,6 +1090,13 @@ def run(ctx):
         ctx.correspondence_broken("ocaml-build", log[-2000:])
         return
     drv = common.cc_driver("apidrive", ["api/apidrive.c"], lib)
+    replay_hist = None
+    if getattr(ctx, "replay", None):
+        try:
+            replay_hist = json.load(open(ctx.replay))["history"]
+        except (ValueError, KeyError, OSError) as e:
+            ctx.correspondence_broken("replay-file-unreadable", str(e))
+            return
     for fn in os.listdir(ctx.outdir):        # replay files of earlier runs
         if fn.startswith("replay_") or fn == "broken_obligations.json":
             os.unlink(os.path.join(ctx.outdir, fn))
@@ -1159,14 +1166,10 @@ def run(ctx):
                     pass
     for fn, h in corpus:
         jobs.append((n, "corpus:" + fn, ctx.seed, h)); n += 1
-    if getattr(ctx, "replay", None):
-        try:
-            h = json.load(open(ctx.replay))["history"]
-            jobs = [(0, "replay", ctx.seed, h)]
-            plan = []
-        except (ValueError, KeyError, OSError):
-            pass
-    jobs.append((n, "probe", ctx.seed, PROBE_HIST)); n += 1
+    if replay_hist is not None:
+        jobs, plan, n = [(0, "replay", ctx.seed, replay_hist)], [], 1
+    else:
+        jobs.append((n, "probe", ctx.seed, PROBE_HIST)); n += 1
     for kind, cnt in plan:
         for _ in range(cnt):
             jobs.append((n, kind, ctx.seed, None)); n += 1
